@@ -674,7 +674,7 @@ def check_total(prop, tier, seed, repo, keep):
                 if rep is not None:
                     return rep, []
                 return None, [dict(prop='C06', key='total/depth/fatal', type='(shard %d)' % i,
-                                   detail='depth probe child (depths %s) died (exit %s): a fatal error such as stack overflow cannot be recovered\n%s' % (depths, crash['rc'], crash['log'][:1200]),
+                                   detail='depth/overrun probe child (depths %s) %s (exit %s): a fatal error such as stack overflow cannot be recovered, a probe that makes no progress for 150 s is a hang; last progress record %s\n%s' % (depths, 'made no progress' if crash['timed_out'] else 'died', crash['rc'], crash['progress'], crash['log'][:1200]),
                                    replay=dict(engine='depth', depths=depths, shard='%d/4' % i, seed=seed))]
             with cf.ThreadPoolExecutor(max_workers=4) as ex:
                 for rep, v in ex.map(djob, range(4)):
